@@ -92,6 +92,32 @@ theorem gen_validate_behaviour :
 /-- every schema type that `Apply` has no case for is known, and is rejected by the above -/
 theorem gen_types_without_case : Gen.C07.schemaTypesWithoutCase = ["SetDefaultRetentionPolicyCommand"] := by decide
 
+/-! ### the metadata cache of a data node -/
+
+/-- **The cache never goes back**: whatever a meta server answers with, the index the client
+holds afterwards is at least what it held and at least what a newer answer brought. -/
+theorem client_cache_monotone (held i : Nat) :
+    held ≤ clientInstall held i ∧ (held ≤ i → clientInstall held i = i) := by
+  unfold clientInstall
+  constructor
+  · split <;> omega
+  · intro h; split <;> omega
+
+/-- along any sequence of answers the held index is the largest seen so far: the cache
+converges to the newest metadata any server has handed out and no acknowledged change
+vanishes from it -/
+theorem client_cache_is_max (held : Nat) (answers : List Nat) :
+    answers.foldl clientInstall held = answers.foldl max held := by
+  induction answers generalizing held with
+  | nil => rfl
+  | cons a as ih =>
+    simp only [List.foldl_cons]
+    have : clientInstall held a = max held a := by unfold clientInstall; split <;> omega
+    rw [this, ih]
+
+/-- the client as it was (it installed every answer) lost ground to a lagging server -/
+example : [5].foldl (fun _ i => i) 6 < 6 := by decide
+
 /-! ### Non-vacuity -/
 
 example : wfTimes {} := by intro db hdb; simp at hdb
